@@ -206,6 +206,8 @@ type c12SrcSpec struct {
 // c12Plan is the decoded fault placement.
 //
 //	files   g | r:f,r:f…   upload files: r successful reads of one byte each, then EOF (f=0) or an error (f=1)
+//	                       (the multipart writer sniffs up to 512 bytes with io.ReadFull before it
+//	                       writes the part header: a source failing within the window fails first)
 //	form    h<n>           n form fields
 //	mp      m0|m1          consumes multipart/form-data
 //	payload pn|pb|pp|ps<r>:<f>   none | buffered JSON | producer fails | stream (r reads, then EOF or error)
@@ -973,7 +975,7 @@ func c12Corpus() [][]string {
 		// plain successes and a failing source
 		c12F("3:0", "h1", "m1", "pn", "w0", "a1", "u0", "tf", "r2e", "qao", "k1", c12Long, "cn", "xi"),
 		c12F("3:0,1:1,4:0", "h0", "m1", "pn", "w0", "a0", "u0", "tf", "r2e", "qao", "k0", c12Long, "cn", "xi"),
-		c12F("2:0", "h0", "m1", "pn", "w0", "a0", "u0", "tf", "r3s", "q1o", "k1", "t30/n/l", "cn", "xi"),
+		c12F("2:0", "h0", "m1", "pn", "w0", "a0", "u0", "tf", "r3s", "q1o", "k1", "t60/n/l", "cn", "xi"),
 		c12F("2:0", "h0", "m1", "pn", "w0", "a0", "u0", "tf", "r3e", "q0o", "k1", c12Long, "cn", "xr"),
 	}
 }
@@ -1079,7 +1081,11 @@ func c12GenF(r *proto.Rng, maxReads int) []string {
 			failing = r.Intn(nf)
 		}
 		for i := 0; i < nf; i++ {
-			fs = append(fs, c12Src2(r.Intn(maxReads+1), i == failing))
+			n := r.Intn(maxReads + 1)
+			if r.Chance(1, 40) {
+				n = 505 + r.Intn(20) // around the sniffing window
+			}
+			fs = append(fs, c12Src2(n, i == failing))
 		}
 		files = strings.Join(fs, ",")
 	}
@@ -1103,7 +1109,7 @@ func c12GenF(r *proto.Rng, maxReads int) []string {
 	cancel, wire := "cn", "xi"
 
 	if r.Chance(1, 10) { // stalls and cancellations: the context ends
-		timing = r.Pick("t30/n/l", "t30/l/n", "t3600000/d30/n", "t0/d30/l", "t3600000/n/d30", "t30/d3600000/n", "t40/d25/n", "t25/n/d40", "t-5/n/l", "t3600000/d0/n")
+		timing = r.Pick("t60/n/l", "t60/l/n", "t3600000/d60/n", "t0/d60/l", "t3600000/n/d60", "t60/d3600000/n", "t80/d50/n", "t50/n/d80", "t-5/n/l", "t3600000/d0/n")
 		switch r.Intn(6) {
 		case 0:
 			tr = "ts" + strconv.Itoa(r.Intn(maxReads+2))
@@ -1120,10 +1126,16 @@ func c12GenF(r *proto.Rng, maxReads int) []string {
 			}
 		}
 	}
+	if cancel == "cb" && (files == "g" && form == 0 && payload != "pb" && !(strings.HasPrefix(payload, "ps") && !strings.HasPrefix(payload, "ps0:"))) {
+		// "after the first body read" never comes for a request without body data: the caller
+		// would never cancel and a stalled response would be waited for forever
+		cancel = "cs"
+	}
 	if r.Chance(1, 8) && !strings.HasPrefix(tr, "tx") && !strings.HasPrefix(tr, "ts") && cancel != "cb" {
 		// a real socket does not keep the chunking of the response body: the reader reads all or
 		// nothing; the caller's cancellation cannot be placed between request and response
 		wire = "xr"
+		timing = c12RealTiming(timing)
 		switch reader {
 		case "q1o", "q2o", "q5o":
 			reader = "q0o"
@@ -1136,6 +1148,12 @@ func c12GenF(r *proto.Rng, maxReads int) []string {
 	}
 	return c12F(files, "h"+strconv.Itoa(form), "m"+proto.Bool(mp), payload, "w"+proto.Bool(werr), "a"+strconv.Itoa(auth), "u"+proto.Bool(urlE),
 		tr, resp, reader, "k"+proto.Bool(reuse), timing, cancel, wire)
+}
+
+// c12RealTiming stretches the short deadlines for the real wire: dialling and sending over a socket
+// on a loaded machine must stay clearly below them, or the deadline would race the placed fault.
+func c12RealTiming(t string) string {
+	return strings.NewReplacer("t50/", "t250/", "t60/", "t300/", "t80/", "t400/", "d50", "d250", "d60", "d300", "d80", "d400").Replace(t)
 }
 
 // c12SweepF: every early-return placement x every failing offset of small sources x transport
@@ -1153,6 +1171,16 @@ func c12SweepF(emit func(in ...string), maxReads int) {
 			}
 			e(c12F("g", "h0", "m0", "ps"+c12Src2(n, true), "w0", "a0", "u0", "tf", "r2e", "qao", reuse, c12Long, "cn", "xi"))
 			e(c12F("g", "h0", "m0", "ps"+c12Src2(n, true), "w0", "a4", "u0", "tf", "r2e", "qao", reuse, c12Long, "cn", "xi"))
+		}
+		// sources around the 512-byte sniffing window: failing inside it (before the part header is
+		// written), exactly at its end, and beyond it; transport failure points around the writes
+		for _, n := range []int{511, 512, 513, 520} {
+			for _, fails := range []bool{false, true} {
+				for _, tr := range []string{"tf", "tx0", "tx1", "tx2", "tx3", "tx9", "tx12"} {
+					e(c12F(c12Src2(n, fails), "h0", "m1", "pn", "w0", "a0", "u0", tr, "r1e", "qao", reuse, c12Long, "cn", "xi"))
+				}
+				e(c12F(c12Src2(1, false)+","+c12Src2(n, fails), "h1", "m1", "pn", "w0", "a3", "u0", "tf", "r1e", "qao", reuse, c12Long, "cn", "xi"))
+			}
 		}
 		// early returns x body kinds
 		for _, body := range [][4]string{{"2:0,1:0", "h1", "m1", "pn"}, {"2:0", "h0", "m0", "pn"}, {"g", "h2", "m1", "pn"}, {"g", "h1", "m0", "pn"},
@@ -1181,15 +1209,15 @@ func c12SweepF(emit func(in ...string), maxReads int) {
 func c12SweepStall(emit func(in ...string)) {
 	e := func(f []string) { emit(f...) }
 	for _, reuse := range []string{"k0", "k1"} {
-		for _, timing := range []string{"t25/n/l", "t3600000/d25/n", "t0/n/d25"} {
+		for _, timing := range []string{"t50/n/l", "t3600000/d50/n", "t0/n/d50"} {
 			e(c12F("2:0", "h1", "m1", "pn", "w0", "a0", "u0", "ts0", "r1e", "qao", reuse, timing, "cn", "xi"))
 			e(c12F("2:0", "h1", "m1", "pn", "w0", "a0", "u0", "ts2", "r1e", "qao", reuse, timing, "cn", "xi"))
 			e(c12F("2:0", "h0", "m1", "pn", "w0", "a0", "u0", "tf", "rs", "qao", reuse, timing, "cn", "xi"))
 			e(c12F("2:0", "h0", "m1", "pn", "w0", "a0", "u0", "tf", "r2s", "qao", reuse, timing, "cn", "xi"))
 			e(c12F("2:0", "h0", "m1", "pn", "w0", "a0", "u0", "tf", "r2s", "q1o", reuse, timing, "cn", "xi"))
 			e(c12F("g", "h0", "m0", "ps2:0", "w0", "a0", "u0", "ts1", "r1e", "qao", reuse, timing, "cn", "xi"))
-			e(c12F("2:0", "h0", "m1", "pn", "w0", "a0", "u0", "tf", "rs", "qao", reuse, timing, "cn", "xr"))
-			e(c12F("2:0", "h0", "m1", "pn", "w0", "a0", "u0", "tf", "r2s", "q0o", reuse, timing, "cn", "xr"))
+			e(c12F("2:0", "h0", "m1", "pn", "w0", "a0", "u0", "tf", "rs", "qao", reuse, c12RealTiming(timing), "cn", "xr"))
+			e(c12F("2:0", "h0", "m1", "pn", "w0", "a0", "u0", "tf", "r2s", "q0o", reuse, c12RealTiming(timing), "cn", "xr"))
 		}
 		for _, c := range []string{"cs", "cb", "ca", "cr"} {
 			for _, timing := range []string{"t3600000/l/n", "t0/n/l"} {
@@ -1212,7 +1240,7 @@ func c12Gen(r *proto.Rng, n int, tier string, emit func(in ...string)) {
 		// the -race build: fault placements with a live writer goroutine, no stalls
 		for i := 0; i < n; i++ {
 			f := c12GenF(r, 6)
-			if f[13] != "cn" || strings.Contains(f[12], "d25") || strings.Contains(f[12], "t30/") {
+			if f[13] != "cn" || strings.Contains(f[12], "d50") || strings.Contains(f[12], "t60/") {
 				continue
 			}
 			emit(f...)
